@@ -29,6 +29,16 @@ void QSlogv(const char *format, va_list args)
 void QSlog(const char *format, ...)
 	__attribute__ ((format(__printf__, 1, 0)));
 
+#ifdef QSOPT_EX_VERIF
+/* verification hook (off by default): read-only trace events for external
+ * monitors; never changes control flow */
+extern void (*QSverif_hook)(const char *what, long a, long b);
+#define QSVERIF_EVENT(what,a,b) do{\
+	if(QSverif_hook) QSverif_hook((what),(long)(a),(long)(b));}while(0)
+#else
+#define QSVERIF_EVENT(what,a,b) do{}while(0)
+#endif
+
 
 /** @name Code Location Utility:
  * this are utility macros to print information about where we are.
